@@ -14,6 +14,8 @@ Wildcard restriction (set inclusion) is decided in C16 (h_restriction).
 import itertools
 from typing import Optional
 
+import xml.etree.ElementTree as ET
+
 import xmlschema
 from xmlschema.validators.particles import OccursCalculator, ParticleMixin
 
@@ -190,6 +192,12 @@ def h_pair(**kw) -> bool:
 
 
 def explain(fn, args):
+    if fn == "h_attr_use":
+        return "XSD %s base attribute use=%s type/fixed %r, restricted to %r: accepted although an instance valid for the derived type is invalid for the base" % (
+            CFG["version"], B_USES[args["bu"]], (A_TYPES[args["ty"]], A_FIXED[args.get("bf", 0)], A_FIXED[args.get("df", 0)]), D_USES[args["du"]])
+    if fn == "h_facet_restriction":
+        return "XSD %s base facet %s=%d restricted with %s=%d: accepted although not included" % (
+            CFG["version"], FACET_PAIRS[args["fp"]][0], F_VALUES[args["bv"]], FACET_PAIRS[args["fp"]][1], F_VALUES[args["dv"]])
     if fn != "h_pair":
         return "args %r" % (args,)
     vec = [D5[args["i%d" % k]] for k in range(STATE["n"])]
@@ -197,6 +205,93 @@ def explain(fn, args):
     return "XSD %s base %s derived %s: is_restriction accepted; derived accepts %r which the base rejects" % (
         CFG["version"], cm.render(S.to_oracle(STATE["base"])), cm.render(S.to_oracle(S.with_occurs(STATE["derived"], vec))),
         [x.split('}')[-1] for x in (w or [])])
+
+
+# ---------------------------------------------------------------- attribute-use and facet restrictions (finite choice)
+# These checks run inside schema construction, which is executed concretely (outside the tracer) for the arrangement the
+# solver picked: if the library ACCEPTS the derived definition, every probe instance valid for the derived type must be
+# valid for the base type (Structures 3.4.6 "Derivation Valid (Restriction, Complex)" clause 2-3, Datatypes 4.3).
+B_USES = ["optional", "required"]
+D_USES = ["optional", "required", "prohibited", "absent"]
+A_TYPES = [("xs:int", "xs:short"), ("xs:int", "xs:int"), ("xs:int", "xs:string"), ("xs:short", "xs:int")]
+A_FIXED = [None, "1", "2"]
+A_PROBES = [None, "1", "2", "70000", "x"]
+
+
+def pre_attr(fn, **kw):
+    lim = {"bu": len(B_USES), "du": len(D_USES), "ty": len(A_TYPES), "bf": len(A_FIXED), "df": len(A_FIXED)}
+    return all(0 <= v < lim[k] for k, v in kw.items())
+
+
+def _build_or_none(version, text):
+    from xmlschema.exceptions import XMLSchemaException
+    cls = xmlschema.XMLSchema10 if version == '1.0' else xmlschema.XMLSchema11
+    try:
+        return cls(text)
+    except XMLSchemaException:
+        return None          # the derivation is refused: nothing to check (completeness is not part of the property)
+
+
+def h_attr_use(**kw) -> bool:
+    from engine.sym import real_io
+    bu = B_USES[pick(kw["bu"], len(B_USES))]
+    du = D_USES[pick(kw["du"], len(D_USES))]
+    bt, dt = A_TYPES[pick(kw["ty"], len(A_TYPES))]
+    bf = A_FIXED[pick(kw["bf"], len(A_FIXED))] if "bf" in kw else None
+    df = A_FIXED[pick(kw["df"], len(A_FIXED))] if "df" in kw else None
+    with real_io():
+        battr = '<xs:attribute name="a" type="%s" use="%s"%s/>' % (bt, bu, '' if bf is None else ' fixed="%s"' % bf)
+        dattr = '' if du == "absent" else '<xs:attribute name="a" type="%s" use="%s"%s/>' % (
+            dt, du, '' if (df is None or du == "prohibited") else ' fixed="%s"' % df)
+        text = ('<xs:schema xmlns:xs="http://www.w3.org/2001/XMLSchema"><xs:complexType name="B">%s</xs:complexType>'
+                '<xs:complexType name="D"><xs:complexContent><xs:restriction base="B">%s</xs:restriction></xs:complexContent></xs:complexType>'
+                '<xs:element name="b" type="B"/><xs:element name="d" type="D"/></xs:schema>') % (battr, dattr)
+        sch = _build_or_none(CFG["version"], text)
+        if sch is None:
+            return True
+        for v in A_PROBES:
+            attrs = {} if v is None else {"a": v}
+            if sch.is_valid(ET.Element('d', attrs)) and not sch.is_valid(ET.Element('b', attrs)):
+                return False
+    return True
+
+
+FACET_PAIRS = [("minInclusive", "minInclusive"), ("maxInclusive", "maxInclusive"), ("minExclusive", "minExclusive"), ("maxExclusive", "maxExclusive"),
+               ("minInclusive", "minExclusive"), ("maxInclusive", "maxExclusive"), ("minExclusive", "minInclusive"), ("maxExclusive", "maxInclusive"),
+               ("totalDigits", "totalDigits"), ("minLength", "minLength"), ("maxLength", "maxLength"), ("length", "length"),
+               ("minLength", "length"), ("maxLength", "length"), ("enumeration", "enumeration")]
+F_VALUES = [1, 3, 5]
+
+
+def pre_facet(fn, fp, bv, dv):
+    return 0 <= fp < len(FACET_PAIRS) and 0 <= bv < len(F_VALUES) and 0 <= dv < len(F_VALUES)
+
+
+def h_facet_restriction(fp: int, bv: int, dv: int) -> bool:
+    from engine.sym import real_io
+    bk, dk = FACET_PAIRS[pick(fp, len(FACET_PAIRS))]
+    b, d = F_VALUES[pick(bv, len(F_VALUES))], F_VALUES[pick(dv, len(F_VALUES))]
+    with real_io():
+        stringy = bk in ("minLength", "maxLength", "length")
+        prim = "xs:string" if stringy else "xs:integer"
+        if bk == "enumeration":
+            bval, dval = ' '.join('<xs:enumeration value="%d"/>' % x for x in (1, b)), '<xs:enumeration value="%d"/>' % d
+            bfac, dfac = bval, dval
+        else:
+            bfac, dfac = '<xs:%s value="%d"/>' % (bk, b), '<xs:%s value="%d"/>' % (dk, d)
+        text = ('<xs:schema xmlns:xs="http://www.w3.org/2001/XMLSchema"><xs:simpleType name="B"><xs:restriction base="%s">%s</xs:restriction></xs:simpleType>'
+                '<xs:simpleType name="D"><xs:restriction base="B">%s</xs:restriction></xs:simpleType>'
+                '<xs:element name="b" type="B"/><xs:element name="d" type="D"/></xs:schema>') % (prim, bfac, dfac)
+        sch = _build_or_none(CFG["version"], text)
+        if sch is None:
+            return True
+        probes = ['', 'a', 'aa', 'aaa', 'aaaa', 'aaaaa', 'aaaaaa'] if stringy else [str(x) for x in range(-1, 8)] + ['10', '100', '1000', '10000', '100000', '1000000']
+        for v in probes:
+            eb, ed = ET.Element('b'), ET.Element('d')
+            eb.text = ed.text = v
+            if sch.is_valid(ed) and not sch.is_valid(eb):
+                return False
+    return True
 
 
 # ---------------------------------------------------------------- pair catalogue
@@ -277,6 +372,16 @@ def obligations(tier, seed):
                 "bound": "all integer bounds and counts (unbounded; only min<=max assumed)"})
     out.append({"name": "occurs/calculator", "fn": "h_calc", "pre": "pre_occ", "args": argsk, "config": {}, "timeout": 120, "twin_timeout": 20,
                 "bound": "all integer bounds (unbounded)"})
+    for version in ("1.0", "1.1"):
+        out.append({"name": "attr-use/%s" % version, "fn": "h_attr_use", "pre": "pre_attr", "args": [[a, "int"] for a in ("bu", "du", "ty")],
+                    "config": {"base": None, "version": version}, "timeout": 300, "twin_timeout": 30,
+                    "bound": "base use %r x derived use %r x (base type, derived type) %r; probes %r (finite choice; construction outside the tracer)" % (B_USES, D_USES, A_TYPES, A_PROBES)})
+        out.append({"name": "attr-fixed/%s" % version, "fn": "h_attr_use", "pre": "pre_attr", "args": [[a, "int"] for a in ("bu", "du", "ty", "bf", "df")],
+                    "config": {"base": None, "version": version}, "timeout": 600, "twin_timeout": 30,
+                    "bound": "the same x fixed values %r on base and derived" % (A_FIXED,)})
+        out.append({"name": "facet-restriction/%s" % version, "fn": "h_facet_restriction", "pre": "pre_facet", "args": [["fp", "int"], ["bv", "int"], ["dv", "int"]],
+                    "config": {"base": None, "version": version}, "timeout": 600, "twin_timeout": 30,
+                    "bound": "%d (base facet, derived facet) pairs x values %r x %r; integer / string probes (finite choice; construction outside the tracer)" % (len(FACET_PAIRS), F_VALUES, F_VALUES)})
     import random
     rnd = random.Random(seed)
     ps = pairs()
